@@ -184,6 +184,18 @@ func CheckOp(c *Ctx, req mon.OpReq, exp Expect, viaModel bool, mo mon.ModelOpts,
 			}
 		}
 	}
+	if c.Idx%8 == 5 && ok {
+		// the same instance and the same tensor objects, whose contents the caller has
+		// overwritten in place since the previous call
+		if ou, ran := mon.RunOpUpdatedInPlace(req); ran {
+			c.Eval(1)
+			c.Count("operands-updated-in-place-calls", 1)
+			if v := Judge(exp, ou); !v.OK {
+				ok = false
+				report(c, "api, second call on the same operator instance and tensor objects after the operands' contents were overwritten in place", req, exp, ou, v, known)
+			}
+		}
+	}
 	if viaModel {
 		om := mon.RunOpModel(req, mo)
 		c.Eval(1)
